@@ -344,7 +344,7 @@ func c07(ctx *run.Ctx) {
 	for _, sh := range c07Shapes() {
 		sh := sh
 		// Exhaustive small scope: all tuples of k words of length n.
-		maxN := map[int]int{1: 7, 2: 4, 3: ctx.Pick(2, 3)}[sh.k]
+		maxN := map[int]int{1: ctx.Pick(7, 8), 2: ctx.Pick(4, 5), 3: ctx.Pick(2, 3)}[sh.k]
 		for n := 0; n <= maxN; n++ {
 			total := pow3(n * sh.k)
 			chunk := 2187
@@ -385,7 +385,7 @@ func c07(ctx *run.Ctx) {
 		}
 		// Random long words, up to 6 sub-strategies for the votes.
 		ctx.Case(fmt.Sprintf("%s/random", sh.name), func(cc *run.Case) {
-			for rep := 0; rep < ctx.Pick(150, 1500); rep++ {
+			for rep := 0; rep < ctx.Pick(150, 6000); rep++ {
 				n := cc.R.Range(0, 200)
 				k := sh.k
 				if sh.name[:3] == "and" || sh.name[:2] == "or" || sh.name[:3] == "maj" {
